@@ -35,12 +35,12 @@ DEPTH = {'quick': 3, 'thorough': 5}
 
 # ------------------------------------------------------------------ initial states
 TAB1 = {'name': 'TAB1', 'cols': [['i', 'int'], ['x', 'double'], ['s', 'char[8]'], ['u', 'char[]']]}
-TAB2 = {'name': 'tab2', 'cols': [['name', 'char[8]'], ['arr', 'int[2]'], ['tags', 'char[2][4]']]}
+TAB2 = {'name': 'tab2', 'cols': [['name', 'char[8]'], ['arr', 'long[2]'], ['tags', 'char[2][4]']]}
 ROWMENU = {
     'TAB1': [[1, 0.5, 'a', 'u'], [-2147483648, 0.1, 'a b', 'uu'], [7, 1.0 / 3.0, '', 'u u u'], [0, -0.0, '#', 'uuuuuu'],
              [2147483647, 1e300, 'a#b', 'u#uuuuu'], [5, 2.5, "it's", 'uuuuuuuuu'], [6, -1.5, 'a\x0cb', ''],
              [8, 4.0, 'x\\y', 'uuuuuuuuuuu']],
-    'TAB2': [['n0', [1, 2], ['ab', 'cd']], ['a b', [-1, 0], ['', 'x y']], ['', [2147483647, -2147483648], ['a#b', 'q']],
+    'TAB2': [['n0', [1, 2], ['ab', 'cd']], ['a b', [-1, 1237648720693755918], ['', 'x y']], ['', [9223372036854775807, -9223372036854775808], ['a#b', 'q']],
              ['#', [3, 4], ['e', '']], ['trail ', [5, 6], ['it', 'is']], [' lead', [7, 8], ['a;b', 'zz']],
              ['z', [9, 10], ['u', 'v']], ['y', [11, 12], ['w', 'x']]],
 }
@@ -64,7 +64,7 @@ CANON_LAYOUT = {'eol': '\n', 'cmt': 'header', 'trail': False, 'blank': 'blocks',
 
 
 def ops_menu(nt):
-    ops = [['write', 'A.par'], ['write', 'B.par'], ['write', None], ['write', F0], ['write', EMPTY], ['append_pairs'], ['append_empty'],
+    ops = [['write', 'A.par'], ['write', 'B.par'], ['write', None], ['write', F0], ['write', EMPTY], ['append_pairs'], ['append_pairs', 2], ['append_empty'],
            ['rebind_missing'], ['re_read'], ['open', OTHER], ['open', F0]]
     for t in range(nt):
         for form in ('lists', 'recarray'):
@@ -118,6 +118,13 @@ class Model:
         sib = [k.lower() for k in have if k.isupper() and k.lower() not in have]
         return [sib[0] if sib else 'KEY%d' % n, ['value %d' % n, 54580 + n, n + 0.5][n % 3]]      # str, int and float values
 
+    def next_pairs(self, op):
+        # ['append_pairs', 2]: two new keywords in ONE append, given in an order that is not the sorted one
+        first = self.next_pair()
+        if op[0] == 'append_pairs' and len(op) > 1 and op[1] == 2:
+            return [first, ['AA%d' % len(self.pairs), 7000 + len(self.pairs)]]
+        return [first]
+
     def apply(self, op):
         """Return expected result class: 'ok', 'refused:<Exc>', 'warned'."""
         kind = op[0]
@@ -132,8 +139,8 @@ class Model:
             if self.filename not in self.files:
                 return 'refused:PydlutilsException'
             if kind in ('append_pairs', 'append_rows_pairs'):
-                k, v = self.next_pair()
-                self.pairs.append([k, str(v)])
+                for k, v in self.next_pairs(op):
+                    self.pairs.append([k, str(v)])
             if kind != 'append_pairs':
                 t = op[1]
                 n = op[4] if kind == 'append_rows' else 1
@@ -192,8 +199,8 @@ class World:
         kind = op[0]
         data = collections.OrderedDict()
         if kind in ('append_pairs', 'append_rows_pairs'):
-            k, v = m.next_pair()
-            data[k] = v
+            for k, v in m.next_pairs(op):
+                data[k] = v
         if kind in ('append_rows', 'append_rows_pairs', 'append_zero'):
             t = op[1]
             s = m.structs[t]
